@@ -226,7 +226,7 @@ def select(rng, depth=2, simple=False):
                 terms.append(t)
             parts.append('ORDER BY ' + ', '.join(terms))
     if not simple and rng.random() < 0.25:
-        parts.append('LIMIT ' + rng.choice(['1', '5', '100']))
+        parts.append('LIMIT ' + rng.choice(['0', '1', '5', '100']))
         if rng.random() < 0.4:
             parts.append('OFFSET ' + rng.choice(['0', '2', '10']))
     return ' '.join(parts)
@@ -516,7 +516,7 @@ _STMT = {
     'model_join': _model_join,
     'select_using': lambda r: f'{select(r, 1, True)} USING {kw_params(r, n=2)}',
     'select_for_update': lambda r: f'SELECT * FROM {table(r)} WHERE {expr(r, 1, True)} FOR UPDATE',
-    'select_limit_comma': lambda r: f'SELECT * FROM {table(r)} LIMIT 2, 5',
+    'select_limit_comma': lambda r: f'SELECT * FROM {table(r)} LIMIT {r.choice([0, 0, 2, 7])}, {r.choice([0, 5, 10])}',
     'insert': _insert,
     'update': _update,
     'delete': lambda r: f'DELETE FROM {table(r)}' + (f' WHERE {expr(r, 2, True)}' if r.random() < 0.85 else ''),
